@@ -39,7 +39,7 @@ func (b *batch) PutIfNotExist(key []byte, val []byte, ttl int64) {
 			oldVal, copyErr := oldItem.ValueCopy(nil)
 			if copyErr != nil {
 				// maybe file is broken
-				return errors.Wrapf(err, "fail to copy value for key %s", key)
+				return errors.Wrapf(copyErr, "fail to copy value for key %s", key)
 			}
 			return storage.NewErrConflict(idx, key, oldVal)
 		} else if errors.Is(err, badger.ErrKeyNotFound) {
